@@ -11,6 +11,7 @@ from vf.simk.world import World, Thread, CLK_TCK
 
 ID = "C06"
 LEVEL = "exploration"
+ALT_MOUNT = True          # run once more with procfs mounted at /hostproc (vf/child.py)
 
 TOKENS = [b"a", b" ", b")", b"(", b"\n", b"\t", b"\xff", "é".encode(), b"1", b") S 1 ",
           b"Uid:\t7\t7\t7", b"Gid:\t8\t8\t8", b"Threads:\t9", b"\\", b"(x) R 2 "]
